@@ -52,6 +52,10 @@ def gen_def(rng):
     for j in range(rng.choice([0, 1, 2])):
         t = rng.choice(cmds)
         ov = {"kind": "command", "address": 100 + 10 * j}
+        if rng.random() < 0.5 and not t.get("basic"):
+            # the ref's own REPEAT wins over the target's (seed C09-5 had it the other way round)
+            ov["repeat"] = rng.choice([r for r in ({"count": c_, "stride": s_} for c_ in (1, 2, 3, 4) for s_ in (1, 2, 3))
+                                       if r != t.get("repeat")])
         objs.append(adef.mk_ref(f"R{'pqr'[j]}", t["name"], ov))
     # put some of them into a block
     if rng.random() < 0.4 and len(objs) >= 2:
@@ -84,6 +88,29 @@ def paths(objs, prefix=""):
             yield from paths(o["objects"], prefix + n + "/")
         elif o["kind"] == "command" or (o["kind"] == "ref" and o["override"]["kind"] == "command"):
             yield prefix + n, o
+
+
+def oracle_last_instance(d):
+    """Per command / command ref (by name): (declared repeat count or None, address of its LAST instance) — "the
+    command's address": enclosing block offset + own address (a ref's override) + (count - 1) * stride, where a ref's
+    own REPEAT wins over its target's."""
+    cmds = {o["name"]: o for o, _ in adef.walk(d["objects"]) if o["kind"] == "command"}
+    out = {}
+
+    def rec(objs, base):
+        for o in objs:
+            if o["kind"] == "block":
+                rec(o["objects"], base + (o.get("address_offset") or 0))
+            elif o["kind"] == "command":
+                r = o.get("repeat")
+                out[o["name"]] = (r["count"] if r else None, base + o["address"] + ((r["count"] - 1) * r["stride"] if r else 0))
+            elif o["kind"] == "ref" and o["override"]["kind"] == "command":
+                t, ov = cmds[o["target"]], o["override"]
+                r = ov.get("repeat") or t.get("repeat")
+                a = ov["address"] if ov.get("address") is not None else t["address"]
+                out[o["name"]] = (r["count"] if r else None, base + a + ((r["count"] - 1) * r["stride"] if r else 0))
+    rec(d["objects"], 0)
+    return out
 
 
 def run_gen_phase(ctx):
@@ -146,6 +173,7 @@ def run_gen_phase(ctx):
         mock = f"Mock::<{rat}, {ats}, u8>::new()"
         mods[cid] = r["pretty"]
         plan[cid] = {}
+        last = oracle_last_instance(d)
         for key, o in paths(d["objects"]):
             steps = resolve(blocks, root, key)
             if steps is None:
@@ -153,6 +181,14 @@ def run_gen_phase(ctx):
                 continue
             steps = [(mf, (mf["count"] - 1 if mf.get("indexed") else None)) for mf, idx in steps]
             leaf = steps[-1][0]
+            want_count, want_addr = last[o["name"]]
+            if bool(leaf.get("indexed")) != (want_count is not None):
+                viol.append((c, f"{key}: accessor takes an index: {bool(leaf.get('indexed'))}, declared repeat count: {want_count}", None, None))
+                continue
+            if want_count is not None:
+                if want_count == 0:
+                    continue
+                steps[-1] = (leaf, want_count - 1)     # the LAST declared instance, whatever count the generator emitted
             meth = leaf["name"]
             want_model = mshape.get(meth)
             si, ni, so, no, has_in, has_out = orc[o["name"]]
@@ -160,7 +196,7 @@ def run_gen_phase(ctx):
                 viol.append((c, f"{key}: CmdShape.v on the real MIR ({want_model}) differs from the property's wording on the definition "
                                 f"{(si, so, has_in, has_out)}", None, None))
                 continue
-            plan[cid][key] = (si, ni, so, no)
+            plan[cid][key] = (si, ni, so, no, want_addr)
             shapes.add((has_in, has_out, si, so, o["kind"]))
             call = rust_call(steps)
             disp = ".dispatch(|_| ())" if leaf.get("field_set_in") else ".dispatch()"
@@ -197,7 +233,10 @@ def run_gen_phase(ctx):
                         continue
                     seen = (int(toks[2]), len(toks[3]) // 2, int(toks[4]), len(toks[5]) // 2)
                     zero_ok = set(toks[3]) <= {"0"} and set(toks[5]) <= {"0"}
-                    if seen != want or not zero_ok:
+                    want, want_addr = want[:4], want[4]
+                    if int(toks[1]) != want_addr:
+                        viol.append((byid[cid], f"{key}: the last declared instance was dispatched at address {toks[1]}, the command's address is {want_addr}", g, want_addr))
+                    elif seen != want or not zero_ok:
                         viol.append((byid[cid], f"{key}: dispatch transferred (size_in, bytes_in, size_out, bytes_out) = {seen}"
                                                 f"{'' if zero_ok else ' with non-zero initial buffers'}, declared {want}", g, want))
         l2.cleanup(ctx, "c09l2")
